@@ -25,10 +25,17 @@ def run(chk):
     chk.trusted = csscheck.TRUSTED
     chk.assumptions = ["the theorems (rule_rewrite_exact …) are about one style rule and the blocks nested in it: every identifier is written "
                        "exactly once, in order, prefixed iff it immediately follows `.` in selector context, and no other token kind changes; "
-                       "PARTIAL: that every rule of every rule-bearing at-rule reaches this function (at-rule dispatch `atRule`/`rules`) is "
-                       "covered by correspondence + oracle, not by a theorem"]
+                       "sheet_idents (GE/Thm/C09Sheet.lean) lifts this to the WHOLE stylesheet model `transform` (no import sign): the identifiers of both outputs "
+                       "are exactly those of the fuel-free reading `goI` of the token tree — class positions in style-rule selectors and in the "
+                       "parenthesised / functional blocks of at-rule preludes, at any depth, in every rule nested inside any rule-bearing at-rule; "
+                       "loose prelude identifiers, at-keywords, declaration blocks and calc() untouched; `:host` rules carry the chain's identifiers. "
+                       "PARTIAL: with an import sign the whole-sheet theorem is not stated; sign comments are covered per rule and by the oracle"]
     csscheck.run_property(chk, "C09", "GE.Thm.C09", THEOREMS, 700, 12000, focus=focus,
                           nontrivial=lambda o, css, res: "." in css)
+    failed, log = chk.prove("GE.Thm.C09Sheet", ["GE.Css.sheet_idents", "GE.Css.rules_sheetI", "GE.Css.qualRule_sheetI", "GE.Css.atLoop_sheetI",
+                                                "GE.Css.writeLow_idents"])
+    for t in failed:
+        chk.violation("proof", f"obligation {t} no longer checks", theorem=t, log=log[-3000:])
 
 
 def replay(chk, path):
